@@ -136,7 +136,7 @@ def gen_case(rng, tier, pid, n):
     if want_cool and rng.random() < 0.6:
         heating = rng.sample(list(HEATING_REACTANTS), rng.randint(1, 3))
     mods = []
-    if pid in ("C02", "C13") and sub and rng.random() < 0.7:
+    if (pid in ("C02", "C13") and sub and rng.random() < 0.7) or (pid == "C03" and sub and (n in (3, 6) or rng.random() < 0.2)):
         present = [s for s in sub if s.key in used or s in required]
         if present:
             for tgt in rng.sample(present, min(len(present), rng.randint(1, 3))):
@@ -147,7 +147,14 @@ def gen_case(rng, tier, pid, n):
                     if nd >= 2 and rng.random() < 0.3:
                         deps[1] = deps[0]
                     fact = rng.choice(["1.0", "-2.0", "-k[0]", "2.0*k[0]", "1e-3", "-1.5e-2*zeta", "0.5+0.5", "-k[0] + zeta", "-2.0 + k[0]",
-                                       "-1.0 - zeta", "1.0 - k[0]", "-k[0]*2.0 + 1e-3"])
+                                       "-1.0 - zeta", "1.0 - k[0]", "-k[0]*2.0 + 1e-3",
+                                       # literals whose text ends in `0.0` in front of a sign (a clean-up of "0.0 + …" placeholders must
+                                       # not reach into the user's factor)
+                                       "1.0e-3*(100.0 - k[0])", "(10.0 + k[0])*2.0", "20.0 - k[0]"])
+                    if pid == "C03" or rng.random() < 0.1:
+                        # a factor written as one long product without blanks: longer than the width the dense and Odeint Jacobian
+                        # entries are wrapped at (56), shorter than the width of the CSR values and the right-hand side (72)
+                        fact = rng.choice(["1.25e-3*k[0]*k[0]*2.5e+1*3.75e+2*1.125e+1*k[0]*4.0625e+3*2.0e+1", "(1.0e-3+2.0e-3+3.0e-3+4.0e-3+5.0e-3+6.0e-3+7.0e-3+8.0e-3+9.0e-3)"])
                     terms.append((fact, deps))
                 mods.append((tgt, terms))
     ratemod = {}
@@ -642,6 +649,7 @@ def run(pid: str, argv):
                 ov_pending.append((case, b, got))
     if pid == "C04":
         slot_identity_check(chk)
+        cross_network_elements_check(chk)
     if compiled_jobs:
         compiled_matrix_check(chk, compiled_jobs)
     if physics_jobs:
@@ -948,6 +956,34 @@ def reassigned_modifiers_check(chk, case, net, n):
         net._rate_modifier, net._ode_modifier = keep      # (the caller still reads the first tables off this object)
     chk.hist["modifiers-reassigned"] += 1
     chk.count(("reassigned", n), nontrivial=True)
+    # the tables can also be edited in place through the properties (`net.rate_modifier[12] = "…"`): same outcome as giving the table
+    # to the constructor
+    if len(fresh_keys) > 2:
+        third = dict(second)
+        third[fresh_keys[1]] = "7.7e-11"
+        try:
+            with silenced():
+                net.rate_modifier = dict(second)
+                net.rate_modifier[fresh_keys[1]] = "7.7e-11"
+                render(net, "dense", scratch / "inplace")
+                net3 = build_network(dict(case, ratemod=third, mods=[]), scratch / "files3")
+                render(net3, "dense", scratch / "fresh3")
+            wsx = cparse.token_text
+            ra3 = [(i, wsx(r), wsx(c)) for i, r, c in Rendered(scratch / "inplace", "dense").rates("k")]
+            rb3 = [(i, wsx(r), wsx(c)) for i, r, c in Rendered(scratch / "fresh3", "dense").rates("k")]
+            chk.hist["modifiers-edited-in-place"] += 1
+            if ra3 != rb3:
+                d3 = next((x for x in rb3 if x not in ra3), None)
+                chk.violation({"kind": "in-place-modifier-lost"},
+                              "a rate modifier added through the property (`net.rate_modifier[i] = …`) is not in the rendering that follows",
+                              input=case_summary(case), added={str(fresh_keys[1]): "7.7e-11"}, expected_statement=d3)
+                return
+        except cparse.CParseError:
+            pass
+        except Exception as e:
+            chk.hist["in-place-refused:" + type(e).__name__] += 1
+        finally:
+            net._rate_modifier, net._ode_modifier = keep
     a, b = Rendered(scratch / "live", "dense"), Rendered(scratch / "fresh", "dense")
     ws = cparse.token_text
     try:
@@ -1154,6 +1190,35 @@ def reused_loader_check(chk, case, net, n):
                           f"a fresh loader does not: {diff[:6]} (sizes and index macros of the edited network next to arrays of the old one)",
                           input=case_summary(case), added_reaction=f"{held[0]} + {extra} -> {held[-1]} + {extra} + {extra}")
             return
+
+
+def cross_network_elements_check(chk):
+    """`GetElementAbund` sums the abundances with the element counts of *this* network's species.  A spelling may mean different
+    things in different projects (`HE` is helium under an upper-case element list, hydrogen plus the element `E` under the default
+    one): a network built after another one that read the same spellings must get the element totals it gets when it is built
+    alone.  Both histories run in worker processes; the rendered physics, macro and right-hand-side files are compared."""
+    from .c17 import run_worker, native, DEFAULT_ELEMENTS as DE, DEFAULT_PSEUDO as DP
+    lines = "\n".join([native(1, ["H", "H"], ["H2"]), native(2, ["HE+", "E"], ["HE"]), native(3, ["H", "CR"], ["H+", "E"], ty=101),
+                       native(4, ["HE", "CR"], ["HE+", "E"], ty=101)]) + "\n"
+    other = {"elements": list(DE), "pseudo": list(DP), "kwargs": {}, "files": [[lines, "naunet"]]}
+    mine = {"elements": ["E", "H", "HE"], "pseudo": ["CR"], "kwargs": {}, "files": [[lines, "naunet"]]}
+    back = ["cvode", "dense", "cpu"]
+    alone = run_worker({"steps": [{"op": "build", "id": "B", "desc": mine}, {"op": "render", "id": "B", "backend": back, "tag": ["alone"]}]}, 0)
+    after = run_worker({"steps": [{"op": "build", "id": "A", "desc": other}, {"op": "query", "id": "A"},
+                                  {"op": "build", "id": "B", "desc": mine}, {"op": "render", "id": "B", "backend": back, "tag": ["after"]}]}, 0)
+    chk.count(("cross-network",), nontrivial=True)
+    chk.hist["cross-network-elements"] += 1
+    if isinstance(alone, dict) or isinstance(after, dict) or "error" in alone[0] or "error" in after[0]:
+        chk.corr_break("cross-network", None, str(alone)[:300], str(after)[:300])
+        return
+    a, b = alone[0]["per_file"], after[0]["per_file"]
+    diff = sorted(f for f in a if a[f] != b.get(f))
+    if diff:
+        chk.violation({"kind": "element-totals-depend-on-history"},
+                      f"a network with elements E, H, HE built after another network that read the same file under the default element list "
+                      f"(where `HE` is H + E) renders {diff[:5]} differently from the same network built alone: its species carry the other "
+                      f"project's compositions, so GetElementAbund is not the count-weighted sum over its own species",
+                      input={"file": lines.split(chr(10))[:4], "first_network_elements": "default list", "second_network_elements": ["E", "H", "HE"]})
 
 
 def slot_identity_check(chk):
@@ -1418,7 +1483,7 @@ def oracle_c03(chk, case, net, rd, rds):
     if b == list(rds)[-1] and len(rds) > 1:
         ref_b = list(rds)[0]
         ref, _ = jac_entries(rds[ref_b])
-        ws = lambda s: "".join(s.split())
+        ws = cparse.token_text          # token by token: an entry wrapped inside a number or a name in one layout is another entry
         for ob, ord_ in rds.items():
             if ob == ref_b:
                 continue
